@@ -1,6 +1,7 @@
 package verifh
 
 import (
+	"bytes"
 	"os"
 	"path/filepath"
 	"strings"
@@ -77,7 +78,7 @@ func TestC03(t *testing.T) {
 	if r.Thorough() {
 		depth = 4
 	}
-	r.Rule("all request sequences of length <= depth over a 37-request alphabet covering the 15 opcodes in success and failure form plus unknown opcodes, x writing enabled/disabled; every truncation point of every request as last request after every 1-request prefix; whole/1-byte/7-byte delivery; an upload whose storing fails (ENOSPC, EIO, partial write) at every write of a 70000-byte payload with three transfer buffer configurations; a case is distinct by (allow-write, executed request prefix, delivery)")
+	r.Rule("all request sequences of length <= depth over a 37-request alphabet covering the 15 opcodes in success and failure form plus unknown opcodes, x writing enabled/disabled; every truncation point of every request as last request after every 1-request prefix; whole/1-byte/7-byte delivery; the same sequences pipelined in one piece (stream = concatenation of the one-by-one answers); an upload whose storing fails (ENOSPC, EIO, partial write) at every write of a 70000-byte payload with three transfer buffer configurations; a case is distinct by (allow-write, executed request prefix, delivery)")
 	r.Extra("depth", depth)
 	r.Extra("alphabet", len(alpha))
 
@@ -136,6 +137,43 @@ func TestC03(t *testing.T) {
 			return
 		}
 		nrun++
+		// the same requests pipelined (one piece, then FIN): the stream must be the concatenation of the answers above
+		if d.plain() && len(seq) >= 2 && (len(seq) == 2 || r.Thorough() || nrun%3 == 0) {
+			if allow && mut {
+				cw.resetW()
+			}
+			want := bytes.Join(res.Raw, nil)
+			for _, mr := range []int{0, 5} {
+				if mr != 0 && nrun%4 != 0 {
+					continue
+				}
+				got, pclosed := runPipelined(t, SrvOpts{Root: cw.w.Root, AllowWrite: allow}, seq, mr)
+				r.Transition(int64(len(seq)))
+				r.ExtraAdd("pipelined_sessions", 1)
+				if len(got) == len(want) {
+					// access times legitimately move between two runs: blank them in stat and V2 entry answers
+					got = append([]byte{}, got...)
+					want = append([]byte{}, want...)
+					pos := 0
+					for i, raw := range res.Raw {
+						if (seq[i].Op == opStatFile && len(raw) == szStat) || (seq[i].Op == opReadDirEntryV2 && len(raw) >= szDirEntryV2) {
+							for k := pos + 24; k < pos+32; k++ {
+								got[k], want[k] = 0, 0
+							}
+						}
+						pos += len(raw)
+					}
+				}
+				if !bytes.Equal(got, want) || !pclosed {
+					r.Outcome("pipelined-differs")
+					r.Violation("C03:pipelined-differs", sprintf("requests %v sent back-to-back in one piece (socket reads capped at %d): the response stream differs from the one-by-one answers (closed=%v): %s", reqStrings(seq), mr, pclosed, describeDiff(got, want)), map[string]any{"allow_write": allow, "requests": seq, "max_read": mr})
+					break
+				}
+				if allow && mut {
+					cw.resetW()
+				}
+			}
+		}
 		bi := 0
 		if allow {
 			bi = 1
